@@ -111,6 +111,7 @@ fn comment_mask(input: &str, from: usize) -> Vec<bool> {
 fn main() {
     let bundled = Converter::bundled();
     let empty = Converter::empty();
+    let light = std::env::var("PMON_LIGHT").is_ok();
     drive(|f| {
         let input = unhex(f[0]);
         let bits = f[1].parse::<u32>().unwrap();
@@ -280,7 +281,9 @@ fn main() {
                         break;
                     }
                 }
-                if let Some(rec) = r.output() {
+                if light {
+                    // C04/C05 runs: the consumers below belong to C03
+                } else if let Some(rec) = r.output() {
                     let fresh = || parser.parse(&input).into_output().expect("output vanished");
                     let stages: Vec<(&str, Box<dyn Fn() + '_>)> = vec![
                         ("accessors", Box::new(|| {
